@@ -610,6 +610,45 @@ fn decrypt_path(thorough: bool, rep: &mut Report, beat: &AtomicU64) {
     rep.outcome("rejected", err);
 }
 
+/// E5: every short relative-OID varbind name after every short absolute name (normalize() index arithmetic)
+fn relative_grid(rep: &mut Report, beat: &AtomicU64) {
+    let (mut ok, mut err) = (0u64, 0u64);
+    let mut alpha = sigma8();
+    alpha.extend_from_slice(&[0x01, 0x05, 0x27, 0x28, 0x7f, 0x80]);
+    alpha.sort();
+    alpha.dedup();
+    let bases: Vec<Vec<u8>> = vec![vec![], vec![0x2b], vec![0x2b, 6], vec![0x2b, 6, 1], vec![0x2b, 0x81, 0x00], vec![0x2b, 0x81], vec![0x2b, 6, 1, 2, 1, 2, 2, 1, 10, 11]];
+    let mut rels: Vec<Vec<u8>> = vec![vec![]];
+    for &a in alpha.iter() {
+        rels.push(vec![a]);
+        for &b in alpha.iter() {
+            rels.push(vec![a, b]);
+            for &c in alpha.iter() {
+                rels.push(vec![a, b, c]);
+            }
+        }
+    }
+    for base in bases.iter() {
+        for rel in rels.iter() {
+            for second_rel in [false, true] {
+                let mut vbs = vec![rb::varbind(&rb::tlv(0x06, base), &rb::enc_int(1)), rb::varbind(&rb::tlv(0x0d, rel), &rb::enc_int(2))];
+                if second_rel {
+                    vbs.push(rb::varbind(&rb::tlv(0x0d, rel), &rb::enc_octets(b"z")));
+                }
+                for version in 0..3usize {
+                    let (entry, data) = wrap(version, &rb::pdu(0xa2, 7, 0, 0, &vbs));
+                    eval(entry, &data, rep, "E5 relative-OID grid", &mut ok, &mut err);
+                }
+            }
+        }
+        beat.fetch_add(1, Ordering::Relaxed);
+    }
+    rep.count("decodes", ok + err);
+    rep.count("e5_inputs", ok + err);
+    rep.outcome("decoded", ok);
+    rep.outcome("rejected", err);
+}
+
 pub fn run(thorough: bool) -> Report {
     let all: Vec<usize> = (0..ENTRIES.len()).collect();
     let full: Vec<u8> = (0..=255u8).collect();
@@ -668,9 +707,14 @@ pub fn run(thorough: bool) -> Report {
         label.lock().unwrap().clear();
     });
     total.merge(r2);
-    let r4 = par_shards(1, |_, rep, beat, label| {
-        *label.lock().unwrap() = "E4 decrypt path".into();
-        decrypt_path(thorough, rep, beat);
+    let r4 = par_shards(2, |i, rep, beat, label| {
+        if i == 0 {
+            *label.lock().unwrap() = "E4 decrypt path".into();
+            decrypt_path(thorough, rep, beat);
+        } else {
+            *label.lock().unwrap() = "E5 relative-OID grid".into();
+            relative_grid(rep, beat);
+        }
         label.lock().unwrap().clear();
     });
     total.merge(r4);
